@@ -278,21 +278,22 @@ impl BroCatli {
                 return BroCatliResult::BrotliFileNotCraftedForAppend;
             }
             index -= 1; // discard the final two bits
+            if index >= 8 && out_bytes.len() <= *out_offset {
+                // a whole byte will have to be written: ask for room before touching any state,
+                // so that the retry finds the end marker still in place
+                return BroCatliResult::NeedsMoreOutput;
+            }
             last_bytes &= (1 << index) - 1; // mask them out
             self.last_bytes[0] = last_bytes as u8; // reset the last_bytes pair
             self.last_bytes[1] = (last_bytes >> 8) as u8;
             if index >= 8 {
                 // if both bits and one useful bit were in the second block, then write that
-                if out_bytes.len() > *out_offset {
-                    out_bytes[*out_offset] = self.last_bytes[0];
-                    self.last_bytes[0] = self.last_bytes[1];
-                    *out_offset += 1;
-                    self.any_bytes_emitted = true;
-                    index -= 8;
-                    self.last_bytes_len -= 1;
-                } else {
-                    return BroCatliResult::NeedsMoreOutput;
-                }
+                out_bytes[*out_offset] = self.last_bytes[0];
+                self.last_bytes[0] = self.last_bytes[1];
+                *out_offset += 1;
+                self.any_bytes_emitted = true;
+                index -= 8;
+                self.last_bytes_len -= 1;
             }
             self.last_byte_bit_offset = index;
             assert!(index < 8);
